@@ -31,7 +31,7 @@ def check(pid, text, note, technique, ref):
         "level_note": note,
         "technique": technique,
     }
-STUBS = "Stubbed: kernel sockets, every dial path, the *net.UDPConn/SessionUDP/OOB path. Trusted: testing/synctest (fake clock, quiescence), the Go race detector, the go/ast rewriter that adds scheduling points to a scratch copy (the unmodified tree runs alongside as a cross-check), the small independent oracle code under sim/oracle."
+STUBS = "Stubbed: kernel sockets, every dial path, the setsockopt calls of the UDP branch (the rest of the *net.UDPConn/SessionUDP/control-message path runs in the instrumented builds through an interface substituted for *net.UDPConn; in the unmodified-tree builds it is a stub). Trusted: testing/synctest (fake clock, quiescence), the Go race detector, the go/ast rewriter that adds scheduling points to a scratch copy (the unmodified tree runs alongside as a cross-check), the small independent oracle code under sim/oracle."
 exec(open(os.path.join(ROOT, "tools", "manifest_checks.py")).read())
 for pid in ["C07","C11","C12","C13","C14","C15","C18"]:
     if pid not in CHECKS:
